@@ -58,6 +58,24 @@ def check(ctx):
     ctx.traces_validated += len(got)
     if cases:
         ctx.sample({"binding": "A", "case": cases[len(cases) // 2]})
+    # ---- readers side by side (each worker of the collector has its own): 8 goroutines, own reader, own buffer, race detector
+    drvr = ctx.go_build_test("reader", ["reader/reader_verif_test.go"], race=True)
+    pout = os.path.join(d, "parallel.json")
+    rc, out, to = ctx.go_run(drvr, "TestVerifReaderParallel", env={"VERIF_OUT": pout, "VERIF_PARALLEL": 1}, timeout=300)
+    ctx.count(["parallel-readers"])
+    if to:
+        raise vlib.Infra("parallel reader driver timed out")
+    if "WARNING: DATA RACE" in out:
+        ctx.violation("two readers over two different buffers, used by two goroutines, share state (race detector): "
+                      + " / ".join(x.rstrip("()") for x in __import__("re").findall(r"^  (github\S*)", out, __import__("re").M)[:3]), {"report": out[:2500]}, key="parallel-race")
+    elif rc != 0 or not os.path.exists(pout):
+        raise vlib.Infra("parallel reader driver failed:\n" + out[-1500:])
+    else:
+        badp = json.load(open(pout)).get("bad") or []
+        if badp:
+            ctx.violation("readers used side by side (one per goroutine, each over its own buffer) disturb each other: %s" % badp[0], {"examples": badp[:5]}, key="parallel-values")
+        else:
+            ctx.traces_validated += 1
     # ---- binding B
     ntr, nops = (600, 60) if thorough else (120, 40)
     tout = os.path.join(d, "trace.ndjson")
